@@ -104,6 +104,16 @@ def call(E, name, args, kwargs):
         return VB(z3.ForAll([i], z3.Implies(z3.And(i >= 0, i < n), list_elem_term(E, lst, i) == src.elem(i))))
     if name == 'val_is':
         return VB(E.to_val(args[0]) == E.to_val(args[1]))
+    if name in ('mstart', 'mend', 'mgroup0'):
+        v = args[0]
+        if isinstance(v, VC) and v.v is None:
+            return VI(I(0)) if name != 'mgroup0' else VS(S(''))
+        h = E.heap[v.addr]
+        if name == 'mstart':
+            return h.fields['spans'][0][0]
+        if name == 'mend':
+            return h.fields['spans'][0][1]
+        return h.fields['groups'][0]
     if name == 'data_len':
         h = E.heap[args[0].addr]
         lst = E.heap[h.fields['data'].addr]
